@@ -40,7 +40,19 @@ def _domain(self, result):
     ensures(result[0] == lo_knot(self) and result[1] == hi_knot(self))
 
 
-@contract("spowtd.spline:Spline.__call__", self_fields={"_tck": TCK}, args={"x": "real", "der": "int"}, returns="real")
+@contract("spowtd.spline:Spline.from_points", args={"points": "list[tuple[real,real]]", "s": "int", "order": "int"},
+          returns="obj[spowtd.spline:Spline]")
+def _from_points(points, s, order, result):
+    """Assumed contract of FITPACK splrep(s=0): the interpolating spline through the points, its
+    knot range the range of the abscissae (validated bounded); the refusals are the code's own."""
+    requires(s == 0 and (order == 1 or order == 3) and len(points) > order)
+    raises(ValueError, when=exists(0, len(points) - 1, lambda i: not (points[i + 1][0] - points[i][0] > 0)))
+    ensures(len(result._tck[0]) >= 2 and lo_knot(result) == points[0][0] and hi_knot(result) == points[len(points) - 1][0])
+    ensures(forall(0, len(points), lambda i: S_of(result, points[i][0]) == points[i][1]))
+
+
+@contract("spowtd.spline:Spline.__call__", self_fields={"_tck": TCK}, args={"x": "real", "der": "int"}, returns="real",
+          vectorized=["x"])
 def _call(self, x, der, result):
     """C14: the value at the argument clamped to the knot range (constant outside it)."""
     requires(len(self._tck[0]) >= 2 and lo_knot(self) < hi_knot(self))
@@ -69,7 +81,7 @@ def integral_additive_antisymmetric(ga, gb, gc, iab, ibc, iac, iba):
 # --------------------------------------------------------------------------- specific yield wrappers
 
 @contract("spowtd.specific_yield:SpecificYield.__call__", self_fields={"_spline": "obj[spowtd.spline:Spline]"},
-          args={"water_level_mm": "real"}, returns="real")
+          args={"water_level_mm": "real"}, returns="real", vectorized=["water_level_mm"])
 def _sy_call(self, water_level_mm, result):
     requires(len(self._spline._tck[0]) >= 2 and lo_knot(self._spline) < hi_knot(self._spline))
     ensures(result == S_of(self._spline, clamp(self._spline, water_level_mm)))
